@@ -41,8 +41,8 @@ Proof.
 Qed.
 
 (* ---- the atomic actions of the listener task -------------------------------------------------- *)
-Lemma listen_spec b :
-  Inv b -> RInv (fst (listen b)) /\ Eff b (rb (fst (listen b))) (snd (listen b)).
+Lemma listen_spec b w :
+  Inv b -> RInv (fst (listen b w)) /\ Eff b (rb (fst (listen b w))) (snd (listen b w)).
 Proof.
   intros I. unfold listen. destruct (arrivals b) as [|k r] eqn:Ea.
   - cbn. split; [split; [exact I|exact Logic.I]|]. split; [reflexivity|left; auto].
@@ -67,9 +67,9 @@ Proof.
         rewrite <- Hc, Ha. pose proof (inv_lim b I). lia.
 Qed.
 
-Lemma upgrade_spec b k t :
+Lemma upgrade_spec b w k t :
   Inv b -> lookup k (kc b) = Some t -> strong t (chans b) < lim b ->
-  RInv (fst (upgrade b k t)) /\ Eff b (rb (fst (upgrade b k t))) (snd (upgrade b k t)).
+  RInv (fst (upgrade b w k t)) /\ Eff b (rb (fst (upgrade b w k t))) (snd (upgrade b w k t)).
 Proof.
   intros I Hk Hlt. unfold upgrade. cbn [fst snd rb pc].
   pose proof (alive_eq_strong b k t I Hk) as Ha.
@@ -84,8 +84,8 @@ Proof.
       split; [reflexivity|split; [reflexivity|lia]].
 Qed.
 
-Lemma finish_spec b l c :
-  Inv b -> RInv (fst (finish b l c)) /\ Eff b (rb (fst (finish b l c))) (fst (snd (finish b l c))).
+Lemma finish_spec b w l c :
+  Inv b -> RInv (fst (finish b w l c)) /\ Eff b (rb (fst (finish b w l c))) (fst (snd (finish b w l c))).
 Proof.
   intros I. destruct l; try destruct c; cbn; (split; [split; [exact I|exact Logic.I]|]);
     (split; [reflexivity|left; auto]).
@@ -94,20 +94,20 @@ Qed.
 Lemma lstep_spec s :
   RInv s -> RInv (fst (lstep s)) /\ Eff (rb s) (rb (fst (lstep s))) (fst (snd (lstep s))).
 Proof.
-  destruct s as [b p]. intros (I & P). cbn [rb pc] in *. unfold lstep. cbn [pc rb].
+  destruct s as [b p w]. intros (I & P). cbn [rb pc] in *. unfold lstep. cbn [pc rb owed].
   destruct p as [| |k t|l|l k].
-  - pose proof (listen_spec b I) as H. destruct (listen b) as [s' o]. exact H.
-  - pose proof (listen_spec b I) as H. destruct (listen b) as [s' o]. exact H.
-  - destruct P as (Hk & Hlt). pose proof (upgrade_spec b k t I Hk Hlt) as H.
-    destruct (upgrade b k t) as [s' o]. exact H.
+  - pose proof (listen_spec b w I) as H. destruct (listen b w) as [s' o]. exact H.
+  - pose proof (listen_spec b w I) as H. destruct (listen b w) as [s' o]. exact H.
+  - destruct P as (Hk & Hlt). pose proof (upgrade_spec b w k t I Hk Hlt) as H.
+    destruct (upgrade b w k t) as [s' o]. exact H.
   - destruct (notifs b) as [|k r] eqn:En.
-    + exact (finish_spec b l false I).
+    + exact (finish_spec b w l false I).
     + cbn [fst snd rb pc]. split; [split; [apply inv_with_notifs, I|exact Logic.I]|].
       split; [reflexivity|left; auto].
   - set (b0 := with_notifs b (k :: notifs b)).
     pose proof (inv_closed b0 (inv_with_notifs b _ I)) as I1.
     destruct (closed_frame true b0) as (Hc & Hl & _ & _ & Hn & _). cbv zeta in *.
-    destruct (finish_spec (snd (poll_closed true b0)) l true I1) as (R & E).
+    destruct (finish_spec (snd (poll_closed true b0)) w l true I1) as (R & E).
     split; [exact R|]. eapply Eff_frame; [| | |exact E].
     + rewrite Hc. reflexivity.
     + rewrite Hl. reflexivity.
@@ -153,18 +153,32 @@ Lemma rstep_spec s o :
        (fst (snd (rstep s o)))
      = (true, proj (chans (rb s'))).
 Proof.
-  intros (I & P). cbv zeta. destruct o as [k|cid| |]; cbn [rstep to_op fst snd rb pc].
-  - destruct (arrive_frame (rb s) k) as (A & Hc & Hk & Hl). cbv zeta in *.
+  intros (I & P). cbv zeta. destruct o as [k|cid|k|cid| |]; cbn [rstep to_op].
+  - cbn [fst snd rb pc].
+    destruct (arrive_frame (rb s) k) as (A & Hc & Hk & Hl). cbv zeta in *.
     split; [split; [exact (A I)|]|split; [exact Hl|]].
     + eapply PcOk_frame; [exact Hk|exact Hl| |exact P]. intros t. cbn [rb]. rewrite Hc. lia.
     + cbn [mon_obs]. rewrite Hc. reflexivity.
-  - split; [split; [exact (inv_close _ cid I)|]|split; [apply close_lim|]].
+  - (* release: PerKey.close on everything but the notification queue *)
+    unfold release. cbn [fst snd rb pc].
+    split; [split; [exact (inv_with_notifs _ _ (inv_close _ cid I))|]|split; [apply close_lim|]].
+    + eapply PcOk_frame; [apply close_kc|apply close_lim| |exact P].
+      intros t. cbn [rb with_notifs chans]. rewrite close_chans. apply strong_filter_le.
+    + cbn [mon_obs with_notifs chans]. rewrite close_chans, proj_filter. reflexivity.
+  - (* a notification is queued: nothing the invariant or the monitor reads *)
+    destruct (existsb (Nat.eqb k) (owed s)); cbn [fst snd rb pc].
+    + split; [split; [exact (inv_with_notifs _ _ I)|]|split; [reflexivity|reflexivity]].
+      eapply PcOk_frame; [reflexivity|reflexivity| |exact P]. intros t. cbn [rb with_notifs chans]. lia.
+    + split; [split; [exact I|exact P]|split; reflexivity].
+  - cbn [fst snd rb pc].
+    split; [split; [exact (inv_close _ cid I)|]|split; [apply close_lim|]].
     + eapply PcOk_frame; [apply close_kc|apply close_lim| |exact P].
       intros t. cbn [rb]. rewrite close_chans. apply strong_filter_le.
     + cbn [mon_obs]. rewrite close_chans, proj_filter. reflexivity.
   - destruct (lstep_spec s (conj I P)) as (R & E).
     split; [exact R|split; [exact (proj1 E)|]]. exact (mon_obs_eff _ _ _ E).
-  - destruct (endl_frame (rb s)) as (A & Hc & Hk & Hl). cbv zeta in *.
+  - cbn [fst snd rb pc].
+    destruct (endl_frame (rb s)) as (A & Hc & Hk & Hl). cbv zeta in *.
     split; [split; [exact (A I)|]|split; [exact Hl|]].
     + eapply PcOk_frame; [exact Hk|exact Hl| |exact P]. intros t. cbn [rb]. rewrite Hc. lia.
     + cbn [mon_obs]. rewrite Hc. reflexivity.
@@ -218,7 +232,9 @@ Theorem race_shed_only_if_was_full n pre o k :
   In (OShed k) (fst (snd (rstep s o))) -> alive k (chans (rb s)) = n.
 Proof.
   intros H s Hin. destruct (rrun_reach n pre H) as (R & L). fold s in R, L.
-  destruct o as [k0|cid| |]; cbn [rstep fst snd] in Hin; try contradiction.
+  destruct o as [k0|cid|k0|cid| |]; cbn [rstep] in Hin;
+    try (destruct (release (rb s) cid)); try (destruct (existsb (Nat.eqb k0) (owed s)));
+    cbn [fst snd] in Hin; try contradiction.
   destruct (lstep_spec s R) as (_ & (_ & E)).
   destruct E as [([E|[E|E]] & _)|[(k' & E & _ & Ha)|(k' & t & E & _)]]; rewrite E in Hin;
     cbn in Hin; try contradiction; try (destruct Hin as [Hin|[]]; discriminate).
@@ -256,9 +272,9 @@ Theorem race_accept_below_n n ops k :
   \/ (exists t, pc (fst (rstep s RListener)) = PcUpgrade k t).
 Proof.
   intros H s Hpc Ha Hlt. destruct (rrun_reach n ops H) as ((I & _) & L). fold s in I, L.
-  cbn [rstep]. unfold lstep.
-  assert (Hl : (exists cid, snd (listen (rb s)) = [OYield cid k])
-               \/ (exists t, pc (fst (listen (rb s))) = PcUpgrade k t)).
+  cbn [rstep]. unfold lstep. cbv zeta.
+  assert (Hl : (exists cid, snd (listen (rb s) (owed s)) = [OYield cid k])
+               \/ (exists t, pc (fst (listen (rb s) (owed s))) = PcUpgrade k t)).
   { unfold listen. destruct (arrivals (rb s)) as [|k' r] eqn:Ea; [discriminate|]. injection Ha as ->.
     pose proof (inv_pop _ I) as I1. set (b1 := pop_arrival (rb s)) in *.
     destruct (lookup k (kc b1)) as [t|] eqn:Ek; [|left; eexists; reflexivity].
@@ -266,7 +282,7 @@ Proof.
     destruct (lim b1 <=? strong t (chans b1)) eqn:El; [|right; eexists; reflexivity].
     apply Nat.leb_le in El. change (lim b1) with (lim (rb s)) in El.
     change (chans b1) with (chans (rb s)) in El. lia. }
-  destruct Hpc as [-> | ->]; destruct (listen (rb s)) as [s' o]; exact Hl.
+  destruct Hpc as [-> | ->]; destruct (listen (rb s) (owed s)) as [s' o]; exact Hl.
 Qed.
 
 Theorem race_accept_after_read : forall env s k t,
@@ -279,7 +295,10 @@ Proof.
   - cbn [rrun_from snd]. split; [exact Hpc|]. cbn [rstep]. unfold lstep. rewrite Hpc. reflexivity.
   - cbn [rrun_from].
     assert (H1 : pc (fst (rstep s o)) = PcUpgrade k t).
-    { destruct o; cbn [rstep fst pc]; try exact Hpc. exfalso. apply (Hno RListener); [left|]; reflexivity. }
+    { destruct o as [k0|cid|k0|cid| |]; cbn [rstep];
+        try (destruct (release (rb s) cid)); try (destruct (existsb (Nat.eqb k0) (owed s)));
+        cbn [fst pc]; try exact Hpc.
+      exfalso. apply (Hno RListener); [left|]; reflexivity. }
     destruct (rstep s o) as [s1 l]. cbn [fst] in H1.
     specialize (IH s1 k t H1 (fun o' Hin => Hno o' (or_intror Hin))). cbv zeta in IH.
     destruct (rrun_from s1 env) as [ls s2]. exact IH.
@@ -300,6 +319,24 @@ Example race_stale_notification_kept :
   = [[]; [OYield 0 7]; []; []; []; []; [OYield 1 7]; []; []; []; []; [OYield 2 7]; []; []; [OShed 7]]
   /\ alive 7 (chans (rb (snd (rrun 2 ops)))) = 2.
 Proof. split; vm_compute; reflexivity. Qed.
+
+(* the notification is DELAYED: the last holder releases channel 0 (count 0, key owed, nothing
+   queued); the next arrival of key 7 is accepted on a count of 0 with a new tracker; only then
+   does the stale notification arrive, and it must not erase the new entry: the third arrival is
+   shed at the limit.  n = 1. *)
+Example race_delayed_notification :
+  let ops := [RArrive 7; RListener; RListener;          (* channel 0 *)
+              RRelease 0;                               (* count 0; Tracker::drop has not sent yet *)
+              RArrive 7; RListener; RListener; RListener;   (* READ 0 < 1; upgrade() = None; channel 1 *)
+              RNotify 7;                                (* the stale notification arrives *)
+              RListener; RListener; RListener;          (* receive + check: entry kept *)
+              RArrive 7; RListener] in                  (* READ 1 >= 1: shed *)
+  decision_view (fst (rrun 1 ops))
+  = [[]; [OYield 0 7]; []; []; []; []; [OYield 1 7]; []; []; []; []; []; []; [OShed 7]]
+  /\ owed (snd (rrun 1 ops)) = []
+  /\ alive 7 (chans (rb (snd (rrun 1 ops)))) = 1
+  /\ c13_ok 1 (map to_op ops) (decision_view (fst (rrun 1 ops))) = true.
+Proof. repeat split; vm_compute; reflexivity. Qed.
 
 Print Assumptions race_monitor_decision.
 Print Assumptions race_alive_le_n.
